@@ -143,6 +143,7 @@ fn history(start_neg: bool, start: &[u64], steps: &[Arg]) -> Verdict {
     let mut u = bu(start);
     let mut um = rn(start);
     let mut seen_i: Vec<(BigInt, RefInt)> = vec![(x.clone(), m.clone())];
+    let mut seen_u: Vec<(BigUint, Nat)> = vec![(u.clone(), um.clone())];
     let mut grew = false;
     let mut shrank_after_growth = false;
     let mut max_len = m.mag.to_u64_digits().len();
@@ -261,6 +262,7 @@ fn history(start_neg: bool, start: &[u64], steps: &[Arg]) -> Verdict {
         }
         if seen_i.len() < 24 {
             seen_i.push((x.clone(), m.clone()));
+            seen_u.push((u.clone(), um.clone()));
         }
     }
     // ---- all values met are ordered like the model ----
@@ -276,6 +278,26 @@ fn history(start_neg: bool, start: &[u64], steps: &[Arg]) -> Verdict {
                 if &ref_of_bi(mx) != wmx {
                     return Err("max() disagrees with numerical order".into());
                 }
+            }
+        }
+        for (a, ra) in &seen_u {
+            for (b, rb) in &seen_u {
+                let want = ra.cmp(rb);
+                if a.cmp(b) != want || (a < b) != (want == Ordering::Less) || (a >= b) != (want != Ordering::Less) || (a == b) != (want == Ordering::Equal) || a.partial_cmp(b) != Some(want) {
+                    return Err(format!("BigUint cmp/</>=/== of 0x{} and 0x{} disagree with numerical order", trunc(&ra.to_string_radix(16, false), 80), trunc(&rb.to_string_radix(16, false), 80)));
+                }
+                if &nat_of_bu(std::cmp::min(a, b)) != (if want == Ordering::Greater { rb } else { ra }) {
+                    return Err("BigUint min() disagrees with numerical order".into());
+                }
+            }
+        }
+        let mut usorted: Vec<&BigUint> = seen_u.iter().map(|p| &p.0).collect();
+        usorted.sort();
+        let mut umsorted: Vec<&Nat> = seen_u.iter().map(|p| &p.1).collect();
+        umsorted.sort_by(|a, b| a.cmp(b));
+        for (a, b) in usorted.iter().zip(umsorted.iter()) {
+            if &&nat_of_bu(a) != b {
+                return Err("BigUint sort() order disagrees with numerical order".into());
             }
         }
         let mut sorted: Vec<&BigInt> = seen_i.iter().map(|p| &p.0).collect();
@@ -376,7 +398,7 @@ impl Property for C04 {
         "C04"
     }
     fn rule(&self) -> &'static str {
-        "Two domains. hist: a start value and 1..30 in-place steps on one BigInt object and, in parallel, one BigUint object (+= -= *= /= %= <<= >>= &= |= ^= set_bit set_zero set_one clone_from assign_from_slice(with redundant zero words and any sign) neg mem::take, += then -=, and the scalar forms += -= *= /= %= with one- and two-digit i128/u128 scalars, inc, dec); a step's operand is either generated or DERIVED from the current value (a copy, copy+-small, only its top digits, the low mask 2^(bits-k)-1, its negation, its complement) and shift amounts / bit indices are the current bit length, +-1, or its digit floor, so that cancellation (x ^= x, x -= x, x %= x, x &= mask, x >>= bits) actually happens. After EVERY step the object must equal the RefInt model, be canonical (no high zero digit; NoSign iff zero) and be indistinguishable from a twin built from the model by a different route (decimal text, bytes, u32 slice, signed bytes - rotating): ==, cmp, <, >, DefaultHasher output, to_bytes_le, to_u32_digits, to_signed_bytes_be, Display, LowerHex; at the end all values met are compared pairwise (cmp, <, ==, partial_cmp, max) and sorted, against the model order. ctor: u32 word lists with redundant high zeros and interior zeros x all three Sign requests through new/from_slice/from_biguint, padded byte strings through from_bytes_le/from_signed_bytes_le/from_radix_le, numerals with leading zeros, arbitrary::Arbitrary (arbitrary and arbitrary_take_rest) on the byte string, quickcheck::Arbitrary with Gen::from_size_and_seed, and the first 40 shrink() candidates - each compared with twins in the same way. Non-trivial: a history in which the value shrinks (by >= 2 digits or to zero) after an earlier growth; a constructor input with redundant zeros or a sign mismatch."
+        "Two domains. hist: a start value and 1..30 in-place steps on one BigInt object and, in parallel, one BigUint object (+= -= *= /= %= <<= >>= &= |= ^= set_bit set_zero set_one clone_from assign_from_slice(with redundant zero words and any sign) neg mem::take, += then -=, and the scalar forms += -= *= /= %= with one- and two-digit i128/u128 scalars, inc, dec); a step's operand is either generated or DERIVED from the current value (a copy, copy+-small, only its top digits, the low mask 2^(bits-k)-1, its negation, its complement) and shift amounts / bit indices are the current bit length, +-1, or its digit floor, so that cancellation (x ^= x, x -= x, x %= x, x &= mask, x >>= bits) actually happens. After EVERY step the object must equal the RefInt model, be canonical (no high zero digit; NoSign iff zero) and be indistinguishable from a twin built from the model by a different route (decimal text, bytes, u32 slice, signed bytes - rotating): ==, cmp, <, >, DefaultHasher output, to_bytes_le, to_u32_digits, to_signed_bytes_be, Display, LowerHex; at the end all values met by the BigInt and by the BigUint object are compared pairwise (cmp, <, >=, ==, partial_cmp, max/min) and sorted, against the model order. ctor: u32 word lists with redundant high zeros and interior zeros x all three Sign requests through new/from_slice/from_biguint, padded byte strings through from_bytes_le/from_signed_bytes_le/from_radix_le, numerals with leading zeros, arbitrary::Arbitrary (arbitrary and arbitrary_take_rest) on the byte string, quickcheck::Arbitrary with Gen::from_size_and_seed, and the first 40 shrink() candidates - each compared with twins in the same way. Non-trivial: a history in which the value shrinks (by >= 2 digits or to zero) after an earlier growth; a constructor input with redundant zeros or a sign mismatch."
     }
     fn technique(&self) -> &'static str {
         "model-based property testing (proptest): generated operation histories (vec(step) + interpreter holding implementation and RefInt model side by side) with value-derived operands; invariant and twin-indistinguishability oracle after every step"
